@@ -106,7 +106,9 @@ class DictVal(Shape):
     """A dict value of unknown contents (a Val term known to be a dict)."""
 
     def make(self, ip, name):
-        return Z(V.VDict(V.fresh(name + "_k", V.VS), V.fresh(name + "_v", V.VS)))
+        k, v = V.fresh(name + "_k", V.VS), V.fresh(name + "_v", V.VS)
+        ip.path.assume(z3.Length(k) == z3.Length(v))          # representation invariant of a mapping value
+        return Z(V.VDict(k, v))
 
 
 class ListVal(Shape):
